@@ -81,6 +81,7 @@ type VC struct {
 	indexTerms    []string
 	knownRefs     []string
 	markHeaps     map[string]*Heap
+	callHeaps     map[*ssa.Call]*Heap // heap right after each executed call returned (atcall)
 	progTerms     []skolem
 	cuts          []cutPoint
 	privRefs      []string
